@@ -1,4 +1,95 @@
+(* C17 — flattening or dropping a level equals mapping on the reduced taxonomy.
+   Property theorems only.
+
+   run_mapping_model (Model/RunMapping.v) is _run_mapping's data flow: the stored tree is
+   kept for the output, the election (Model/Election.v) runs on the reduced tree, its
+   records are keyed by the stored level names and flagged directly_assigned,
+   backfill_assignments completes them from the stored tree.  The theorems hold for EVERY
+   marker-cache acceptance test `cache_ok` and EVERY decision procedure `mk_decide` that
+   are functions of (reduced tree, marker table) — which is all the code hands them —
+   every marker table, every list of cells and every generator state.  A cell of the
+   result is the dict {stored level index: record}; `lookup k cell` is cell[level k]. *)
 From Coq Require Import ZArith List Bool.
-From CTM Require Import Model.Election.
-Theorem c17_placeholder : True. Proof. exact I. Qed.
-Print Assumptions c17_placeholder.
+From CTM Require Import Base.Sx Base.SortX Model.Tree Model.Election Model.RunMapping Proofs.ElectionP Proofs.RunMappingP.
+From CTM Require Model.Markers.
+Import ListNotations.
+Open Scope Z_scope.
+
+(* Dropping level li (accepted by drop_level: the tree has >= 2 levels and li is a level
+   other than the leaf level) versus a run, without any reduction, on a reference whose
+   taxonomy is drop_level t li:
+   - both fail alike (marker cache, election), or
+   - the reduced run succeeds with rowsB and generator g', and the dropping run either
+     raises the KeyError of backfill_assignments (excluded by c17_backfilled_path under
+     the validator's guarantees) or succeeds with the same generator state and rows that
+     agree with rowsB at every stored level other than li (stored level k = reduced level
+     k below li, k-1 above), while at li the record is the parent, in the STORED tree, of
+     the directly assigned record at li+1, with its numbers, flagged inferred
+     (directly_assigned = false) and without runner-up fields. *)
+Theorem c17_drop_equals_reduced :
+  forall (cell rng : Type) (cache_ok : tree -> Markers.table -> bool)
+         (mk_decide : tree -> Markers.table -> rng -> option (nat * node) -> list node -> list cell -> list rec * rng)
+         (t : tree) (li : nat) (t' : tree) (tb : Markers.table) (cells : list cell) (g : rng),
+    drop_level t li = TOk t' ->
+    match run_mapping_model cell rng cache_ok mk_decide t' {| cfg_drop := None; cfg_flatten := false |} tb cells g with
+    | TErr e =>
+        run_mapping_model cell rng cache_ok mk_decide t {| cfg_drop := Some li; cfg_flatten := false |} tb cells g = TErr e
+    | TOk (rowsB, g') =>
+        run_mapping_model cell rng cache_ok mk_decide t {| cfg_drop := Some li; cfg_flatten := false |} tb cells g
+          = TErr Tree.E_KEY \/
+        exists rowsA,
+          run_mapping_model cell rng cache_ok mk_decide t {| cfg_drop := Some li; cfg_flatten := false |} tb cells g
+            = TOk (rowsA, g') /\
+          Forall2 (fun a b =>
+                     (forall k, k <> li -> lookup k a = lookup (if (k <? li)%nat then k else pred k) b) /\
+                     exists fine p,
+                       lookup (S li) a = Some fine /\ o_direct fine = true /\
+                       parent_of (nth li t []) (o_asg fine) = Some p /\
+                       lookup li a = Some (inferred p fine))
+                  rowsA rowsB
+    end.
+Proof. exact drop_equals_reduced. Qed.
+Print Assumptions c17_drop_equals_reduced.
+
+(* Flattening versus a run on the one-level taxonomy of the leaves with the flattened marker
+   table (the sorted union of all lists, Markers.flatten_table): the leaf level holds
+   exactly the record of the one-level run; every coarser level k holds the parent, in the
+   stored tree, of the record at level k+1 — i.e. the leaf's ancestor — with the leaf's
+   numbers, flagged inferred, without runner-up fields. *)
+Theorem c17_flatten_equals_one_level :
+  forall (cell rng : Type) (cache_ok : tree -> Markers.table -> bool)
+         (mk_decide : tree -> Markers.table -> rng -> option (nat * node) -> list node -> list cell -> list rec * rng)
+         (t : tree) (tb : Markers.table) (cells : list cell) (g : rng),
+    validate t = true ->
+    match run_mapping_model cell rng cache_ok mk_decide [leaf_level t] {| cfg_drop := None; cfg_flatten := false |}
+                            (Markers.flatten_table tb) cells g with
+    | TErr e =>
+        run_mapping_model cell rng cache_ok mk_decide t {| cfg_drop := None; cfg_flatten := true |} tb cells g = TErr e
+    | TOk (rowsB, g') =>
+        run_mapping_model cell rng cache_ok mk_decide t {| cfg_drop := None; cfg_flatten := true |} tb cells g
+          = TErr Tree.E_KEY \/
+        exists rowsA,
+          run_mapping_model cell rng cache_ok mk_decide t {| cfg_drop := None; cfg_flatten := true |} tb cells g
+            = TOk (rowsA, g') /\
+          Forall2 (fun a b =>
+                     lookup (length t - 1) a = lookup 0 b /\
+                     forall k, (S k < length t)%nat -> exists finer p,
+                       lookup (S k) a = Some finer /\
+                       parent_of (nth k t []) (o_asg finer) = Some p /\
+                       lookup k a = Some (inferred p finer))
+                  rowsA rowsB
+    end.
+Proof. exact flatten_equals_one_level. Qed.
+Print Assumptions c17_flatten_equals_one_level.
+
+(* A drop_level that is not a level of the taxonomy changes nothing at all (with or
+   without flatten): same rows, same generator state, same errors. *)
+Theorem c17_drop_absent_level_noop :
+  forall (cell rng : Type) (cache_ok : tree -> Markers.table -> bool)
+         (mk_decide : tree -> Markers.table -> rng -> option (nat * node) -> list node -> list cell -> list rec * rng)
+         (t : tree) (li : nat) (f : bool) (tb : Markers.table) (cells : list cell) (g : rng),
+    (length t <= li)%nat ->
+    run_mapping_model cell rng cache_ok mk_decide t {| cfg_drop := Some li; cfg_flatten := f |} tb cells g =
+    run_mapping_model cell rng cache_ok mk_decide t {| cfg_drop := None; cfg_flatten := f |} tb cells g.
+Proof. exact drop_absent_noop. Qed.
+Print Assumptions c17_drop_absent_level_noop.
